@@ -151,6 +151,23 @@ def entry_points(good_schema, cfg, bad_schema, probe):
         if bad_schema[f] != good_schema.get(f, None):
             attempt("setitem", lambda v, f=f: v.schema.__setitem__(f, copy.deepcopy(bad_schema[f])))
     attempt("update", lambda v: v.schema.update(bad()))
+
+    # the same rejected assignment offered a second time to the same validator is rejected again
+    def twice(fn):
+        def go(v):
+            try:
+                fn(v)
+            except cerberus.SchemaError:
+                pass
+            pool.PoolValidator.clear_caches()
+            cerberus.Validator.clear_caches()
+            fn(v)
+        return go
+    attempt("update-twice", twice(lambda v: v.schema.update(bad())))
+    for f in list(bad_schema)[:1]:
+        if bad_schema[f] != good_schema.get(f, None):
+            attempt("setitem-twice", twice(lambda v, f=f: v.schema.__setitem__(f, copy.deepcopy(bad_schema[f]))))
+    attempt("schema-setter-twice", twice(lambda v: setattr(v, 'schema', bad())))
     # an update that brings new fields: well-formed ones first, the corrupted field(s) after them
     renamed = {("n_%s" % f): r for f, r in bad_schema.items()}
     fresh_first = dict(sorted(renamed.items(), key=lambda kv: kv[1] != good_schema.get(kv[0][2:] if kv[0][2:] in good_schema else next((g for g in good_schema if str(g) == kv[0][2:]), None))))
